@@ -480,7 +480,15 @@ def execute(desc):
         exec_ast, eval_ast = _S["hy_compile"](hy.read_many(src), mod, get_expr=True)
         codes = (compile(exec_ast, "<c09>", "exec"), compile(eval_ast, "<c09>", "eval"))
     except BaseException as e:
-        raise RuntimeError("harness: generated program does not compile: %s\n%s" % (e, src))
+        from hy.errors import HyLanguageError
+        if isinstance(e, (HyLanguageError, SyntaxError)):
+            raise RuntimeError("harness: generated program is not valid Hy: %s\n%s" % (e, src))
+        # every generated program is a well-formed try/with nesting: an internal error or an AST that Python's
+        # compile() rejects means there is no compiled code that could run the prescribed clauses
+        return {"events": [["does_not_compile", type(e).__name__, str(e)[:200]]],
+                "violations": [{"clause": "program_does_not_compile", "sig": type(e).__name__,
+                                "detail": {"error": "%s: %s" % (type(e).__name__, str(e)[:300]), "program": src[-1500:]}}],
+                "faults": {}, "probes": {"executions": 0}, "sigs": [], "steps": 0}
     viols, events = [], []
     faults = {"single_faults_executed": 0, "fault_pairs_executed": 0, "fired_class_A": 0, "fired_class_B": 0, "fired_class_C": 0,
               "fired_class_D_baseexception": 0, "fault_in_manager_protocol": 0, "fault_in_type_expression": 0}
